@@ -329,4 +329,64 @@ theorem stopped_step (names : Nat → Name) (s s' : State) (e : Event)
     | (injection hs with hs; subst hs; inv_norm; grind)
     | cases hs
 
+/-! ### progress measure -/
+
+/-- remaining own steps of a `sendRequest` call once the client is gone -/
+def srank : SPc → Nat
+  | .waitLock => 4 | .locked => 3 | .writing => 2 | .failed => 1 | _ => 0
+
+/-- remaining own steps of the reader once the client is gone -/
+def rrank : RPc → Nat
+  | .got _ => 11 | .firing _ _ => 10 | .reading => 9 | .failErr => 8 | .failTerm => 7 | .failAbort => 6
+  | .closing => 5 | .draining => 4 | .finishing => 3 | .done => 0
+
+/-- progress measure over the (finitely many) calls `ids` -/
+def mu (ids : List Nat) (s : State) : Nat := (ids.map (fun i => srank (s.spc i))).sum + rrank s.rpc
+
+/-- the sender whose step an event is -/
+def Event.actor : Event → Option Nat
+  | .sStart i | .sLock i | .sRegister i | .sWriteOk i | .sWriteFail i | .sSetErr i => some i
+  | _ => none
+
+theorem sum_update (f : Nat → SPc) (i : Nat) (p : SPc) (ids : List Nat) (hn : ids.Nodup) (hi : i ∈ ids)
+    (hlt : srank p < srank (f i)) :
+    (ids.map (fun j => srank (if j = i then p else f j))).sum < (ids.map (fun j => srank (f j))).sum := by
+  induction ids with
+  | nil => simp at hi
+  | cons a t ih =>
+    simp only [List.nodup_cons] at hn
+    simp only [List.map_cons, List.sum_cons]
+    by_cases ha : a = i
+    · subst ha
+      have hrest : (t.map (fun j => srank (if j = a then p else f j))) = t.map (fun j => srank (f j)) := by
+        apply List.map_congr_left
+        intro j hj
+        have : j ≠ a := fun h => hn.1 (h ▸ hj)
+        simp [this]
+      rw [hrest]; simp; omega
+    · have hi' : i ∈ t := by simpa [Ne.symm ha] using hi
+      have := ih hn.2 hi'
+      simp only [ha, if_false]; omega
+
+theorem mu_setPc (ids : List Nat) (hn : ids.Nodup) (s s' : State) (i : Nat) (p : SPc) (hi : i ∈ ids)
+    (hlt : srank p < srank (s.spc i)) (hspc : s'.spc = (setPc s i p).spc) (hrpc : s'.rpc = s.rpc) :
+    mu ids s' < mu ids s := by
+  have := sum_update s.spc i p ids hn hi hlt
+  simp only [mu, hspc, hrpc, setPc_spc]
+  omega
+
+theorem internal_step_decreases (names : Nat → Name) (ids : List Nat) (hn : ids.Nodup) (s s' : State) (e : Event)
+    (hint : e.internal = true) (hact : ∀ i, e.actor = some i → i ∈ ids)
+    (hs : step names s e = some s') : mu ids s' < mu ids s := by
+  cases e <;> simp only [Event.internal] at hint <;> try (cases hint)
+  all_goals simp only [Event.actor] at hact
+  all_goals simp only [step] at hs
+  all_goals (repeat' split at hs)
+  all_goals first
+    | (injection hs with hs; subst hs
+       first
+       | (simp only [mu, rrank]; simp_all; done)
+       | (apply mu_setPc ids hn _ _ _ _ (hact _ rfl) _ rfl rfl; simp_all [srank]))
+    | cases hs
+
 end ConfModel.ClientRunner
